@@ -45,10 +45,13 @@ Record gp_oracle := {
   o_gmean : list Q;      (* model.predictive_gradients(x)[0], one per coordinate *)
   o_gvar : list Q;       (* model.predictive_gradients(x)[1] *)
   o_sd : Q;              (* np.sqrt(o_var) *)
-  o_z : Q;               (* the binary64 (t - mean)/sd at which the three values below were taken *)
-  o_pdf : Q;             (* ss.norm.pdf(o_z) *)
-  o_cdf : Q;             (* ss.norm.cdf(o_z) *)
-  o_logcdf : Q           (* ss.norm.logcdf(o_z) *)
+  o_z : Q;               (* the binary64 term = (t - mean)/sd at which the values below were taken *)
+  o_pdf : Q;             (* ss.norm.pdf(o_z)     (may have underflowed to 0 in the far lower tail) *)
+  o_cdf : Q;             (* ss.norm.cdf(o_z)     (likewise) *)
+  o_logpdf : Q;          (* ss.norm.logpdf(o_z) *)
+  o_logcdf : Q;          (* ss.norm.logcdf(o_z) *)
+  o_lr : Q;              (* the binary64 o_logpdf - o_logcdf *)
+  o_ratio : Q            (* np.exp(o_lr)  =  phi(z)/Phi(z) *)
 }.
 
 Record row := {
@@ -64,10 +67,20 @@ Definition close (a b : Q) : bool := Qle_bool (Qabs (a - b)) (tol * (1 + Qabs b)
 
 Definition Qlt_bool (a b : Q) : bool := negb (Qle_bool b a).
 
+(** consistency of the recorded library values: sd^2 ~ var, z ~ (t - mean)/sd, lr ~ logpdf - logcdf,
+    and the ratio exp(lr) really is phi(z)/Phi(z): checked against pdf/cdf where cdf has not
+    underflowed, and against the Mills-ratio bounds  -z < phi(z)/Phi(z) < -z + 1/(-z)  for z < -1
+    (the only check available in the far tail, where pdf and cdf are both 0.0 in binary64) *)
 Definition oracle_ok (dim : nat) (t : Q) (o : gp_oracle) : bool :=
-  Qlt_bool 0 (o_var o) && Qlt_bool 0 (o_sd o) && Qlt_bool 0 (o_cdf o)
+  Qlt_bool 0 (o_var o) && Qlt_bool 0 (o_sd o) && Qlt_bool 0 (o_ratio o)
   && close (o_sd o * o_sd o) (o_var o)
   && close (o_z o) ((t - o_mean o) / o_sd o)
+  && close (o_lr o) (o_logpdf o - o_logcdf o)
+  && (if Qlt_bool (1 # 1000000000000) (o_cdf o) then close (o_ratio o * o_cdf o) (o_pdf o) else true)
+  && (if Qlt_bool (o_z o) (- (1))
+      then Qle_bool ((- o_z o) * (1 - tol)) (o_ratio o)
+           && Qle_bool (o_ratio o) ((- o_z o + 1 / (- o_z o)) * (1 + tol))
+      else true)
   && (length (o_gmean o) =? dim) && (length (o_gvar o) =? dim).
 
 (** * the formula lines (hand-written mirror; the generated twin is Gen/C10_Gradient.gradQ) *)
@@ -79,7 +92,8 @@ Definition grad_coord (t : Q) (o : gp_oracle) (gm gv : Q) : Q :=
   let std := o_sd o in
   let factor := (- gm) * std - (t - o_mean o) * (1 # 2) * gv / std in
   let factor := factor / o_var o in
-  factor * o_pdf o / o_cdf o.
+  (* pdf_cdf_ratio = np.exp(ss.norm.logpdf(term) - ss.norm.logcdf(term)): the oracle's value *)
+  factor * o_ratio o.
 
 Fixpoint map2 {A B C} (f : A -> B -> C) (l : list A) (m : list B) : list C :=
   match l, m with a :: l', b :: m' => f a b :: map2 f l' m' | _, _ => [] end.
@@ -122,7 +136,7 @@ Definition outside (x : list Q) (b : list bound) : bool := existsb coord_outside
 
 (** d/dx_j ln Phi((t - mu)/sd), chain rule form:  phi(z)/Phi(z) * ( -mu'_j/sd - (t - mu) v'_j / (2 sd v) ) *)
 Definition spec_grad_coord (t : Q) (o : gp_oracle) (gm gv : Q) : Q :=
-  (o_pdf o / o_cdf o) * (- gm / o_sd o - (t - o_mean o) * gv / (2 * o_sd o * o_var o)).
+  o_ratio o * (- gm / o_sd o - (t - o_mean o) * gv / (2 * o_sd o * o_var o)).
 
 Definition spec_logpdf (b : list bound) (r : row) : ext :=
   if outside (r_x r) b then NegInf
